@@ -505,3 +505,55 @@ func c03ValueRecursion(c *Ctx, rule string) {
 		}
 	}
 }
+
+// c02CopierStateFresh: the memo tables live exactly as long as one copy: the constructors of the copier and of
+// the overlayer return a struct allocated in that call whose map fields are made there (a recycled or shared
+// instance carries pointer/map identities of an earlier value into the next copy: a map whose address is
+// seen again - re-reported by a source, or reused by the allocator - would be answered from the stale memo).
+func c02CopierStateFresh(c *Ctx, cp *copier, rule string) {
+	w := c.W
+	for _, f := range []*ssa.Function{cp.newC, w.fn("", "newOverlayer")} {
+		if f == nil {
+			c.undecided(rule, "constructors", 0, "newDeepCopier / newOverlayer not found")
+			continue
+		}
+		c.analysed(relName(f))
+		okAll := true
+		why := ""
+		nRet := 0
+		for _, r := range returnsOf(f) {
+			nRet++
+			al, ok := retVals(r)[0].(*ssa.Alloc)
+			if !ok || !al.Heap {
+				okAll = false
+				why = "the result is " + canon(retVals(r)[0]) + ", not a struct allocated by this call"
+				continue
+			}
+			st, ok := al.Type().(*types.Pointer).Elem().Underlying().(*types.Struct)
+			if !ok {
+				okAll = false
+				continue
+			}
+			for i := 0; i < st.NumFields(); i++ {
+				fld := st.Field(i)
+				v := litField(al, fld.Name())
+				switch fld.Type().Underlying().(type) {
+				case *types.Map:
+					if _, isMake := v.(*ssa.MakeMap); !isMake {
+						okAll = false
+						why = "map field " + fld.Name() + " is not made in the constructor"
+					}
+				case *types.Pointer:
+					if namedTypeName(fld.Type()) == ".deepCopier" {
+						call, isCall := v.(*ssa.Call)
+						if !isCall || staticCallee(call) != origin(cp.newC) {
+							okAll = false
+							why = "the copier field " + fld.Name() + " is not a new copier"
+						}
+					}
+				}
+			}
+		}
+		c.check(okAll && nRet > 0, rule, relName(f), f.Pos(), "returns a struct allocated by this call with freshly made memo maps", "the constructor does not return a freshly allocated instance with fresh memo maps ("+why+"): memo state can survive from one copy / stack to the next")
+	}
+}
